@@ -51,7 +51,13 @@ pub fn run_case(ctx: &Ctx, sz: &Sizes, case: u64, proxy: &RouterProxy, global: b
     // "swarm" batches run very many tiny scenarios: every scenario ends with a registration that
     // nothing follows, which is where a lost wake-up of the router thread shows
     let small = ctx.opt_u64("small", 0) == 1;
-    let nroutes = if small {
+    // "storm" batches: hundreds of routes registered back to back from several threads, so that the
+    // router thread is kept draining its control queue while further registrations arrive; the
+    // last registrations of the storm have nothing behind them to repair a lost wake-up
+    let storm = ctx.opt_u64("storm", 0) == 1;
+    let nroutes = if storm {
+        r.range(120, 400)
+    } else if small {
         r.range(1, 4)
     } else {
         match r.below(3) {
@@ -59,8 +65,9 @@ pub fn run_case(ctx: &Ctx, sz: &Sizes, case: u64, proxy: &RouterProxy, global: b
             _ => r.range(2, 32),
         }
     } as usize;
-    let nreg_threads = if small { r.range(2, 4) } else { r.range(1, 8) } as usize;
-    let nprod_threads = if small { 1 } else { r.range(1, 6) as usize };
+    let nreg_threads = if storm { r.range(3, 8) } else if small { r.range(2, 4) } else { r.range(1, 8) } as usize;
+    let nprod_threads = if small || storm { 1 } else { r.range(1, 6) as usize };
+    let small = small || storm; // same message and pause rules
     let allow_multi = is_os() && sz.sndbuf < 100_000 && r.chance(500);
     let log: Arc<Mutex<Vec<Ev>>> = Arc::new(Mutex::new(Vec::new()));
     let mut routes: Vec<Route> = Vec::new();
@@ -326,7 +333,10 @@ pub fn run_case(ctx: &Ctx, sz: &Sizes, case: u64, proxy: &RouterProxy, global: b
             rep.violation(&format!("C07:{}", k), json!({"ctx": base, "problem": d, "all_problems": all, "log": l.iter().take(40).map(|e| format!("{:?}", e)).collect::<Vec<_>>()}), ctx.replay(case));
         }
     }
-    if small {
+    if storm {
+        rep.stat("storm_scenarios", 1);
+        rep.stat("storm_routes", nroutes as i64);
+    } else if small {
         rep.stat("swarm_scenarios", 1);
     }
     if case % 7 == 0 && !small {
@@ -346,7 +356,7 @@ pub fn run(ctx: &Ctx) {
         if global {
             run_case(ctx, &sz, case, &ROUTER, true);
         } else {
-            if ctx.opt_u64("small", 0) == 1 {
+            if ctx.opt_u64("small", 0) == 1 || ctx.opt_u64("storm", 0) == 1 {
                 // thousands of tiny scenarios: the router is dropped afterwards to free its thread
                 let proxy = RouterProxy::new();
                 run_case(ctx, &sz, case, &proxy, false);
